@@ -588,16 +588,18 @@ func (w *World) GWFile() string {
 		if w.Decoys > 0 && k == 0 {
 			fmt.Fprintf(&b, "%s,%s,%s%s", "9Z1", FmtDate(p.Day, w.Cfg.DateFormat), "7", e)
 		}
+		if w.Alt != 0 && k == 0 && (w.Alt>>1)%2 == 0 {
+			// the second soil profile (soilId=9A1) has a series of its own: the same dates, the table 3 dm deeper; the file
+			// is kept in date order, so the two wells alternate line by line (which of them comes first varies)
+			fmt.Fprintf(&b, "%s,%s,%s%s", "9A1", FmtDate(p.Day, w.Cfg.DateFormat), fnum(p.Level+3), e)
+		}
 		fmt.Fprintf(&b, "%s,%s,%s%s", w.Soil.ID, FmtDate(p.Day, w.Cfg.DateFormat), fnum(p.Level), e)
+		if w.Alt != 0 && !(k == 0 && (w.Alt>>1)%2 == 0) {
+			fmt.Fprintf(&b, "%s,%s,%s%s", "9A1", FmtDate(p.Day, w.Cfg.DateFormat), fnum(p.Level+3), e)
+		}
 		if w.Decoys > 1 && k%3 == 1 {
 			// another soil's measurement between the lines of this soil (file kept in date order)
 			fmt.Fprintf(&b, "%s,%s,%s%s", "9Z2", FmtDate(p.Day, w.Cfg.DateFormat), "33", e)
-		}
-	}
-	if w.Alt != 0 {
-		// the second soil profile (soilId=9A1) has a series of its own: the same dates, the table 3 dm deeper
-		for _, p := range w.GWSeries {
-			fmt.Fprintf(&b, "%s,%s,%s%s", "9A1", FmtDate(p.Day, w.Cfg.DateFormat), fnum(p.Level+3), e)
 		}
 	}
 	return b.String()
